@@ -77,6 +77,8 @@ func (c20) Plan(tier string, seed uint64) []core.Case {
 			cases = append(cases, core.Case{ID: fmt.Sprintf("C20/exhaustive/%s/%s/%03d", c04kinds[kind], transport, lo), Engine: "exhaustive", Seed: seed, P: map[string]interface{}{"kind": kind, "tables": sub, "transport": transport, "client_quarter": (lo / 40) % 4}, TimeoutS: 300})
 		}
 	}
+	// tables assembled by the two builders: registration order is call order (AutoReplyPings is a registration too)
+	cases = append(cases, core.Case{ID: "C20/builders", Engine: "builders", Seed: seed, TimeoutS: 120})
 	nr := 200
 	if tier == "thorough" {
 		nr = 5000
@@ -279,8 +281,119 @@ func (p c20) Run(c core.Case) core.Result {
 		p.exhaustive(&r, c)
 	case "random":
 		p.random(&r, c)
+	case "builders":
+		p.builders(&r, c)
 	}
 	return r
+}
+
+// builders: ServerBuilder and ClientBuilder register handlers in call order. Table: [specific get /x] [AutoReplyPings]
+// [catch-all]: a ping goes to the auto-reply, /x to the specific handler, anything else to the catch-all.
+func (p c20) builders(r *core.Result, c core.Case) {
+	ctx, cancel := context.WithTimeout(context.Background(), 60*time.Second)
+	defer cancel()
+	ask := func(tag string, cp lime.CommandProcessor, uri, wantStatus, wantDesc string) {
+		req := &lime.RequestCommand{}
+		req.ID = lime.NewEnvelopeID()
+		req.Method = lime.CommandMethodGet
+		req.SetURIString(uri)
+		octx, oc := context.WithTimeout(ctx, 10*time.Second)
+		defer oc()
+		resp, err := cp.ProcessCommand(octx, req)
+		r.Evals++
+		r.Count("builder_dispatches", 1)
+		if err != nil {
+			r.Violate("C20/builders/no-answer/"+tag, fmt.Sprintf("%s: get %s was not answered: %v", tag, uri, err))
+			return
+		}
+		desc := ""
+		if resp.Reason != nil {
+			desc = resp.Reason.Description
+		}
+		if string(resp.Status) != wantStatus || desc != wantDesc {
+			r.Violate("C20/builders/wrong-handler/"+tag, fmt.Sprintf("%s: table [get /x -> 'specific'] [AutoReplyPings] [catch-all -> 'catch-all'] answered get %s with status %s reason %q, expected status %s reason %q (the earliest registered matching handler)", tag, uri, resp.Status, desc, wantStatus, wantDesc))
+		}
+	}
+	specific := func(cmd *lime.RequestCommand) bool { return cmd.URI != nil && cmd.URI.Path() == "/x" }
+	answer := func(desc string) lime.RequestCommandHandlerFunc {
+		return func(ctx context.Context, cmd *lime.RequestCommand, sd lime.Sender) error {
+			return sd.SendResponseCommand(ctx, cmd.FailureResponse(&lime.Reason{Code: 1, Description: desc}))
+		}
+	}
+	// server side
+	smux := lime.NewServerBuilder().
+		RequestCommandHandlerFunc(specific, answer("specific")).
+		AutoReplyPings().
+		RequestCommandsHandlerFunc(answer("catch-all")).
+		ListenInProcess(rig.NewInProcAddr()).Build().VerifMux()
+	var est sync.Mutex
+	var srvCh *lime.ServerChannel
+	got := make(chan struct{}, 1)
+	cfg := rig.DefaultServerConfig()
+	cfg.Established = func(id string, ch *lime.ServerChannel) {
+		est.Lock()
+		srvCh = ch
+		est.Unlock()
+		select {
+		case got <- struct{}{}:
+		default:
+		}
+	}
+	sr, err := rig.StartServer(cfg, smux, []string{rig.InProc, rig.TCP}, 0)
+	if err != nil {
+		r.Verdict = core.Inconclusive
+		r.Note = err.Error()
+		return
+	}
+	defer sr.Close(20 * time.Second)
+	cc, _, err := sr.EstablishClient(ctx, rig.TCP, 4, 4, lime.Identity{Name: "c20b", Domain: "verif.local"}, "i")
+	if err != nil {
+		r.Verdict = core.Inconclusive
+		r.Note = err.Error()
+		return
+	}
+	go func() {
+		for range cc.MsgChan() {
+		}
+	}()
+	ask("server-builder", cc, "/ping", "success", "")
+	ask("server-builder", cc, "/x", "failure", "specific")
+	ask("server-builder", cc, "/other", "failure", "catch-all")
+	ask("server-builder", cc, "/ping", "success", "")
+	_ = cc.Close()
+	// client side: the server asks the client
+	select {
+	case <-got:
+	default:
+	}
+	client := lime.NewClientBuilder().
+		UseInProcess(sr.InProcAddr, 4).
+		Name("c20cb").Domain("verif.local").Instance("i").
+		GuestAuthentication().
+		RequestCommandHandlerFunc(specific, answer("specific")).
+		AutoReplyPings().
+		RequestCommandsHandlerFunc(answer("catch-all")).
+		Build()
+	defer client.Close()
+	if err := client.Establish(ctx); err != nil {
+		r.Verdict = core.Inconclusive
+		r.Note = "client builder establish: " + err.Error()
+		return
+	}
+	select {
+	case <-got:
+	case <-time.After(10 * time.Second):
+		r.Verdict = core.Inconclusive
+		r.Note = "no Established callback for the builder-made client"
+		return
+	}
+	est.Lock()
+	sc := srvCh
+	est.Unlock()
+	ask("client-builder", sc, "/ping", "success", "")
+	ask("client-builder", sc, "/x", "failure", "specific")
+	ask("client-builder", sc, "/other", "failure", "catch-all")
+	r.Fingerprints = append(r.Fingerprints, "builders|server", "builders|client")
 }
 
 // bare established channel pair.
